@@ -56,6 +56,22 @@ theorem VReach.maj23 {c : Cfg} {B : Vote → Prop} {a b : VoteSet} (h : VReach c
   | add v _ _ ih => exact VoteSet.addVote_maj23 c _ v x ih
   | claim p k _ ih => rw [VoteSet.setPeerMaj23_maj23]; exact ih
 
+
+/-- a recorded vote of a later stage was recorded before or is one of the added votes -/
+theorem VReach.has_back {c : Cfg} {B : Vote → Prop} {a b : VoteSet} (h : VReach c B a b) {k : Bid} {u : Nat}
+    (hh : b.has k u) : a.has k u ∨ ∃ w, B w ∧ w.bid = k ∧ w.val = u := by
+  induction h with
+  | refl => exact Or.inl hh
+  | add v _ hb ih =>
+    rcases (VoteSet.addVote_has c _ v k u).1 hh with h1 | ⟨e1, e2⟩
+    · exact ih h1
+    · exact Or.inr ⟨v, hb, e1.symm, e2.symm⟩
+  | claim p key _ ih => exact ih (((VoteSet.setPeerMaj23_bucket _ p key k).2 u).1 hh)
+
+theorem VoteSet.empty_has (k : Bid) (u : Nat) : ¬ VoteSet.empty.has k u := by
+  intro ⟨bv, hb, _⟩
+  simp [VoteSet.empty, alookup] at hb
+
 /-! ### the height vote set -/
 
 def HVS.has (h : HVS) (r : Int) (t : VType) (key : Bid) (v : Nat) : Prop :=
@@ -154,6 +170,19 @@ theorem HExt.maj23 {c : Cfg} {A : Int → VType → Vote → Prop} {a b : HVS} (
     rw [hg']
     simp only [maj23Of, Option.bind] at hm ⊢
     exact hr.maj23 hm
+
+
+theorem HExt.has_back {c : Cfg} {A : Int → VType → Vote → Prop} {a b : HVS} (h : HExt c A a b)
+    {r : Int} {t : VType} {k : Bid} {u : Nat} (hh : b.has r t k u) :
+    a.has r t k u ∨ ∃ w, A r t w ∧ w.bid = k ∧ w.val = u := by
+  obtain ⟨vs', hg', hv⟩ := hh
+  rcases h.bwd r t vs' hg' with ⟨vs, hg, hr⟩ | ⟨_, hr⟩
+  · rcases hr.has_back hv with h1 | h1
+    · exact Or.inl ⟨vs, hg, h1⟩
+    · exact Or.inr h1
+  · rcases hr.has_back hv with h1 | h1
+    · exact absurd h1 (VoteSet.empty_has k u)
+    · exact Or.inr h1
 
 theorem HExt.tracked {c : Cfg} {A : Int → VType → Vote → Prop} {a b : HVS} (h : HExt c A a b)
     {r : Int} {t : VType} (ht : (a.getVoteSet r t).isSome = true) : (b.getVoteSet r t).isSome = true := by
